@@ -116,7 +116,7 @@ def grid_continua(rng, n_annot, max_units, grid, labels, allow_empty=True, count
                 s = rng.randint(0, grid - 1)
                 e = rng.randint(s + 1, grid)
                 units.add((float(s), float(e), rng.choice(labels)))
-            spec[f"ann{a}"] = [list(u) for u in sorted(units, key=lambda u: (u[0], u[1], u[2] or ""))]
+            spec[f"ann{a}"] = [list(u) for u in sorted(units, key=lambda u: (u[0], u[1], u[2] is not None, u[2] or ""))]
         if sum(len(v) for v in spec.values()) >= 1:
             out.append(spec)
     return out
